@@ -88,3 +88,80 @@ PROPS["VAL"] = {
     "rule": "development job: default plan on random documents",
     "nontrivial": lambda lines, meta: any(l.startswith("E ") for l in lines),
 }
+
+
+# ---------------------------------------------------------------- rule properties
+RULES_OF = {
+    "C04": ["FieldsOnCorrectType", "LeafFieldSelections"],
+    "C05": ["OverlappingFieldsCanBeMerged"],
+    "C06": ["UniqueFragmentNames", "KnownFragmentNames", "KnownTypeNames", "FragmentsOnCompositeTypes", "NoUnusedFragments", "NoFragmentsCycle", "PossibleFragmentSpreads"],
+    "C07": ["UniqueVariableNames", "VariablesAreInputTypes", "NoUndefinedVariables", "NoUnusedVariables", "VariablesInAllowedPosition"],
+    "C08": ["ValuesOfCorrectType"],
+    "C09": ["KnownArgumentNames", "UniqueArgumentNames", "ProvidedRequiredArguments"],
+    "C10": ["KnownDirectives", "UniqueDirectivesPerLocation"],
+    "C11": ["UniqueOperationNames", "LoneAnonymousOperation", "SingleFieldSubscriptions"],
+}
+
+
+def fired(lines):
+    """rule code -> set of info strings of its errors"""
+    out = {}
+    for l in lines:
+        if l.startswith("E "):
+            p = l.split(" | ")
+            out.setdefault(p[0][2:], set()).add(p[2] if len(p) > 2 else "-")
+    return out
+
+
+def make_rule_prop(pid):
+    rules = RULES_OF[pid]
+
+    def compare_model(il, ml, meta):
+        if not il or not ml or il[0] != ml[0]:
+            return False
+        fi, fm = fired(il), fired(ml)
+        for r in rules:
+            if (r in fi) != (r in fm):
+                return False
+            if r == "KnownArgumentNames" and fi.get(r) != fm.get(r):
+                return False          # the owner named by the error
+        # every error carries the code of a rule of the plan
+        return all(code in rules for code in fi)
+
+    def compare_spec(il, sl, meta, exempt):
+        if not il or il[0] != "OK":
+            return False
+        fi = fired(il)
+        ok = True
+        for l in sl:
+            p = l.split()
+            if p[0] != "V" or p[1] not in rules:
+                continue
+            if p[2] == "X":
+                exempt["out-of-scope:" + p[1]] = exempt.get("out-of-scope:" + p[1], 0) + 1
+                continue
+            if (p[1] in fi) != (p[2] == "1"):
+                ok = False
+        return ok
+
+    def nontrivial(il, meta):
+        # some rule of the property fires, or the document is non-trivially large and accepted
+        return any(r in fired(il) for r in rules) or len(meta.get("doc", "")) > 200
+
+    return {"compare_model": compare_model, "compare_spec": compare_spec, "nontrivial": nontrivial,
+            "rule": "random schema-aware documents (valid-biased / wild / deep) over the curated schema pool, validated with the plan made of this property's rules (%s); compared per rule: fires / does not fire (implementation vs extracted model, and vs the specification oracle where the rule's side condition holds), every error's code; distinct = distinct (schema, document); non-trivial = one of the rules fires or the document is longer than 200 characters" % ", ".join(rules)}
+
+
+for _pid in RULES_OF:
+    PROPS[_pid] = make_rule_prop(_pid)
+
+
+def c13_compare_model(il, ml, meta):
+    return il == ml
+
+
+PROPS["C13"] = {
+    "rule": "random documents x random plans (default, singletons, sub-sequences, permutations, repetitions); compared: all errors (code, locations) grouped by maximal runs of one code, as multisets inside a run; on the implementation additionally: validate(plan) equals the concatenation of the single-rule runs, every error of a single-rule run has that rule's code, messages non-empty, every location is the position of a node of the parsed document, serde_json shape {locations:[{line,column}],message} only, default plan = the 24 rules in order. distinct = distinct (schema, document, plan); non-trivial = at least one error and a plan of at least 2 rules",
+    "compare_model": c13_compare_model,
+    "nontrivial": lambda il, meta: any(l.startswith("E ") for l in il) and "plan-len=1" != meta.get("note"),
+}
